@@ -97,13 +97,15 @@ def label(cid):
     return ",".join("%s#%d" % (s, i) for s, i in cid) or "base"
 
 
-def K(tier):
-    return 3 if tier == "quick" else 4
+def K(tier, level=2):
+    if tier == "quick":
+        return 4 if level <= 1 else 3
+    return 4
 
 
 def bounds(tier):
     return {
-        "k": K(tier),
+        "k": "4 for deviation levels 0,1; 3 for level 2" if tier == "quick" else 4,
         "slots": T2S_SLOTS,
         "pool_sizes": {s: len(pool(s)) for s in T2S_SLOTS},
         "deviation_levels": [0, 1, 2] if tier == "quick" else [0, 1, 2, "3 (core triples on one durative action incl. its duration)"],
@@ -145,7 +147,7 @@ def shards(tier, seed):
 def run_shard(shard, tier, seed):
     acc = Acc()
     for cid in shard["cids"]:
-        check_case(tuple(tuple(x) for x in cid), K(tier), acc)
+        check_case(tuple(tuple(x) for x in cid), K(tier, len(cid)), acc)
     return acc
 
 
